@@ -3,6 +3,7 @@
 package c19
 
 import (
+	"fmt"
 	"math/rand/v2"
 	"regexp"
 	"strings"
@@ -174,6 +175,17 @@ func genDoc(r *rand.Rand) Doc {
 				break
 			}
 		}
+	}
+	if r.IntN(10) == 0 {
+		// a name that is declared nowhere, used twice: not a use of a declared variable, nothing to answer
+		for k := 0; k < 2; k++ {
+			p.Stmts = append(p.Stmts, gen.Stmt{K: "call", Fn: "set_tx_meta", Args: []gen.Expr{*gen.Str(fmt.Sprintf("ghost%d", k)), *gen.Var("ghost")}})
+		}
+	}
+	if r.IntN(12) == 0 {
+		// a variable mentioned in its own origin: declared, so hover and definition identify it
+		name := "selfref"
+		p.Vars = append(p.Vars, gen.VarDecl{Type: "account", Name: name, Fn: "meta", Args: []gen.Expr{*gen.Var(name), *gen.Str("parent")}})
 	}
 	pr := p.Print()
 	if r.IntN(10) == 0 {
